@@ -13,11 +13,11 @@ base_broken=$(echo "$fails_with" | grep -v "seed_demo" | grep -v "invalid_builde
 demo_fails=$(echo "$fails_with" | grep -c "seed_demo")
 passed=$(grep -E "Summary" /tmp/seed-out/$id.with.log)
 echo "summary with: $passed" >> $log
-git stash push -q -- src
+git apply -R $out/patch.diff || { echo 'cannot reverse patch' >> $log; }
 cargo nextest run --offline --test seed_demo > /tmp/seed-out/$id.without.log 2>&1
 fails_without=$(grep -E "^\s+FAIL " /tmp/seed-out/$id.without.log | wc -l)
 echo "summary without: $(grep -E Summary /tmp/seed-out/$id.without.log)" >> $log
-git stash pop -q
+git apply $out/patch.diff
 if [ "$base_broken" = "0" ] && [ "$demo_fails" -ge 1 ] && [ "$fails_without" = "0" ]; then
   mkdir -p /verif/seeded/$name
   cp $out/patch.diff /verif/seeded/$name/patch.diff
